@@ -59,6 +59,7 @@ def lower_model(v):
 def run(rep):
     rng = random.Random(rep.seed)
     quick = rep.tier == "quick"
+    P.replay_witnesses(rep, PID)
     rep.rule = ("S->I: the MC_Peg 'icase' universe (literals with letters, digits and symbols, ID and regex matches "
                 "next to them, separators) with ignore_case=True x all inputs of <= 4 symbols over {a, A, b, +, space}; "
                 "I->S: seeded-random grammars with alphabetic keywords and regexes, every accepted input with random "
